@@ -18,7 +18,7 @@ import (
 
 func TestVerifC19MetaStore(t *testing.T) {
 	stats := verifkit.For("C19", "TestVerifC19MetaStore",
-		"a generated command log is applied by one goroutine (as raft does) while 1..4 goroutines repeatedly take fsm snapshots and persist them and 1..4 goroutines read the published metadata (clone, marshal, lookups); oracle: no race-detector report, no panic, every persisted snapshot unmarshals and equals the state of some log prefix's marshalled form length-wise consistent (re-marshal fixpoint). non-trivial = >=3 goroutines and >=10 state-changing commands; distinct = hash of the command kinds")
+		"a generated command log (warmed up with users and privileges, followed by a tail of up to 120 commands that change nested values of existing objects: privileges, shard owners, policies) is applied by one goroutine (as raft does) while 1..4 goroutines repeatedly take fsm snapshots and persist them and 1..4 goroutines read the published metadata (clone, marshal, lookups); oracle: no race-detector report, no panic, every persisted snapshot unmarshals and equals the state of some log prefix's marshalled form length-wise consistent (re-marshal fixpoint). non-trivial = >=3 goroutines and >=10 state-changing commands; distinct = hash of the command kinds")
 	defer stats.Flush()
 	rapid.Check(t, func(rt *rapid.T) {
 		r := vReplica(rapid.Bool().Draw(rt, "autoCreate"))
